@@ -257,6 +257,14 @@ fn check_wm(ctx: &mut Ctx, values: &[u64]) {
             } else {
                 ctx.eval();
             }
+            // The two-position variant is documented as two map_down_with queries at once: any pair of indexes.
+            if in_alphabet {
+                let want_i = smaller + values[..i.min(n)].iter().filter(|&&y| y == v).count();
+                for &j in &idx {
+                    let want_j = smaller + values[..j.min(n)].iter().filter(|&&y| y == v).count();
+                    ctx.expect(|| format!("WMCore.map_down_with_two_positions[{},{}]", arg_class(i, n), arg_class(j, n)), guard(|| core.map_down_with_two_positions(i, j, v)), &(want_i, want_j), || json!({"x": case(), "call": format!("core.map_down_with_two_positions({}, {}, {})", i, j, v)}));
+                }
+            }
             // map_up_with(index, value): the position where map_down returns (index, value), else None.
             let got = guard(|| core.map_up_with(i, v));
             if in_alphabet {
